@@ -557,13 +557,18 @@ func (s *sessRun) request(rng *mrand.Rand, q int) {
 		// no Save has succeeded for more than 24 hours: every cookie's Max-Age has run out in the browser, nothing is left to read
 		s.ref, s.savedRef = sRef{}, sRef{}
 	}
-	s.jar.addTo(r)
+	if rng.Intn(4) == 0 {
+		s.jar.addToLines(r, 1+rng.Intn(3)) // the cookies arrive in several Cookie header lines
+		T.stat("session.requests-with-several-cookie-lines")
+	} else {
+		s.jar.addTo(r)
+	}
 	if rng.Intn(4) == 0 {
 		// cookies the middleware never set, under names that look like its chunk cookies (a hostile or broken client): they are
 		// not session content, and whatever the response does about them stays within the limits of every other line
 		for _, n := range [][]string{{"_oidc_raczylo_a_" + strings.Repeat("0", 4200)}, {"_oidc_raczylo_r_+7", "_oidc_raczylo_a_007"}, {"_oidc_raczylo_r_" + strings.Repeat("0", 3000) + "1", "_oidc_raczylo_a_-0"},
 			{"_oidc_raczylo_a_99999999999999999999999", "_oidc_raczylo_m_0", "_oidc_raczylo_a_1e3"}}[rng.Intn(4)] {
-			r.AddCookie(&http.Cookie{Name: n, Value: "x"})
+			r.Header.Add("Cookie", n+"=x") // (a line of its own: AddCookie would fold everything into the first line)
 		}
 		T.stat("session.requests-with-lookalike-cookies")
 	}
